@@ -1675,8 +1675,28 @@ PyObject * matrix_add(PyObject *self, PyObject *other)
   return matrix_add_generic(self, other, 0);
 }
 
+static PyObject *
+matrix_sub_generic(PyObject *self, PyObject *other, int inplace);
+
+/* A += B and A -= B with B sparse: adds the dense copy of B to A */
+static PyObject *
+matrix_iadd_sparse(PyObject *self, PyObject *other, int add)
+{
+  if (MAT_NROWS(self) != SP_NROWS(other) || MAT_NCOLS(self) != SP_NCOLS(other))
+    PY_ERR_TYPE("incompatible dimensions");
+
+  PyObject *tmp = (PyObject *)dense((spmatrix *)other);
+  if (!tmp) return NULL;
+
+  PyObject *ret = (add ? matrix_add_generic(self, tmp, 1) :
+      matrix_sub_generic(self, tmp, 1));
+  Py_DECREF(tmp);
+  return ret;
+}
+
 static PyObject * matrix_iadd(PyObject *self,PyObject *other)
 {
+  if (SpMatrix_Check(other)) return matrix_iadd_sparse(self, other, 1);
   return matrix_add_generic(self, other, 1);
 }
 
@@ -1834,6 +1854,7 @@ PyObject * matrix_sub(PyObject *self, PyObject *other)
 
 static PyObject * matrix_isub(PyObject *self,PyObject *other)
 {
+  if (SpMatrix_Check(other)) return matrix_iadd_sparse(self, other, 0);
   return matrix_sub_generic(self, other, 1);
 }
 
